@@ -27,24 +27,40 @@ RULE = ("(12%: structured 'districts' inputs -- a district {a, b} with a <-> b A
         "has a counterfactual world, the graph has an edge and ID* went past line 3 (it built a counterfactual graph) "
         "and answered with an estimand, Zero from line 5, or 'unidentifiable'.")
 ASSUMPTIONS = [
-    "soundness is a THEOREM on the named fragment InFragment (Props/C07.lean idstar_sound_fragment, idstar_answers_fragment; "
-    "decidable test inFragmentB = in_fragment() below): events all of whose keys carry one subscript set, with unstarred values "
-    "and unstarred subscripts (the interventional queries P(y_x), conjunctions allowed): for every functional SCM compatible "
-    "with the graph (normalised noise, mechanisms bounded by a finite domain) the returned expression, read by `cden` "
-    "(Lemmas/CfDen.lean: the reading of the property), equals P(event), and ID* always answers. The harness reports how many "
-    "generated cases fall in the fragment (tags in_fragment, in_fragment_past_line3: ~30% / ~23% of the quick stream) and "
-    "treats ANY oracle failure inside it as a violation regardless of the finding keys (key IN-FRAGMENT is never listed)",
-    "OUTSIDE the fragment soundness (estimand = P(event)) and zero-soundness beyond lines 2, 3 and 5 have NO theorem (F10: the "
-    "implementation is wrong on ~10% of random events): decided by correspondence + exact evaluation on 8 sampled functional "
-    "SCMs per case (cardinalities 2-3); the known wrong answers are listed in known_findings.jsonl",
+    "soundness is a THEOREM on three nested, decidable fragments (Props/C07.lean; tests inFragmentB / inFragment2B / inFragment2RB of "
+    "Y0/Model/IdStar.lean, re-implemented on the graph by fragment_flags() below and COMPARED with the model's answer on every case): "
+    "fragment 1 (idstar_sound_fragment, idstar_answers_fragment, idstar_never_zero_fragment): all keys carry one subscript set, "
+    "unstarred values and subscripts (the queries P(y_x), conjunctions allowed); fragment 2 (idstar_sound_fragment2): all keys carry "
+    "one subscript set, values and subscripts of ANY polarity, and whenever line 6 fires no key with a starred value is a parent of "
+    "a non-self-intervened node of the counterfactual graph and no node of that graph is self-intervened on a starred subscript "
+    "(otherwise line 6 writes a starred symbol as an unstarred subscript: F10/M1, F10/M2); fragment 2R (idstar_sound_fragment2R): "
+    "events with any number of worlds that violate effectiveness, consist of tautologies, or are reduced to fragment 2 by line 3. "
+    "For every functional SCM compatible with the graph (normalised noise, mechanisms bounded by a finite domain) the returned "
+    "expression, read by `cden2` (Lemmas/CfStarLit.lean: the reading of the property -- outcome variables take the event's values, "
+    "an unstarred subscript is the literal x unless an enclosing Sum binds it, a starred one the literal x'), equals P(event). "
+    "The harness reports the share of generated cases per fragment (tag coverage: ~34% / ~34% / ~12% of the quick stream, ~80% "
+    "together) and treats ANY oracle failure inside them as a violation regardless of the finding keys (key IN-FRAGMENT is never listed)",
+    "single-world events (tag one_world, ~72% of the stream): ID* never refuses (idstar_answers_oneworld) and returns Zero iff "
+    "line 2 fires (idstar_zero_iff_line2_oneworld, idstar_zero_sound_oneworld) -- both are checked on the real code on every "
+    "single-world case (kinds 'refusal', 'zero-iff-line2', never listed); under the CONFLATING reading (an unstarred subscript -X "
+    "denotes the value the event gives X) the estimand of EVERY single-world event is P(event) (idstar_sound_oneworld_conflating), "
+    "i.e. on single-world events F10 is exactly the lost polarity of the subscripts line 6 writes",
+    "OUTSIDE fragment 2R (single-world events on which line 6 loses a polarity: ~4%; events that are still multi-world after line 3 "
+    "and get an estimand: ~13%) soundness of the estimand has NO theorem and is false on the current tree (F10: about half of these events "
+    "get a wrong answer): decided by correspondence + exact evaluation on 8 sampled functional SCMs per case (cardinalities 2-3); "
+    "the known wrong answers are listed in known_findings.jsonl. Zero: for every event Zero comes from line 2, line 5 or from line 2 "
+    "of a recursive call on a district event (idstar_zero_origin); the first two are sound by theorem (idstar_zero_sound_partial), "
+    "the third kind is decided by the oracle (open findings of kind 'zero'). Refusals: ID* refuses iff line 8 of the top-level "
+    "call finds a conflict (idstar_refusal_iff_conflict); recursive calls never refuse",
     "reading of an estimand: a free outcome variable takes the event's value for that variable; when the event gives the "
     "variable both values (x in one world, x' in another) the reading is ambiguous and the oracle accepts the estimand if "
     "SOME choice (per leaf) works in all sampled models; subscripts: +X is the literal x'; -X is the value bound by an "
     "enclosing Sum over X, else the literal x -- the oracle also accepts the strictly literal reading (both conventions "
     "are tried, the estimand passes if one of them is right in all sampled models); a variable that is neither bound nor "
     "valued by the event must not influence the value (all its values are tried)",
-    "'otherwise refuses with unidentifiable': completeness of the refusal is not checked (no independent identifiability "
-    "decision procedure for counterfactual events); only that the refusal is the Unidentifiable exception and nothing else",
+    "'otherwise refuses with unidentifiable': whether the refused events are really unidentifiable is not checked (no independent "
+    "identifiability decision procedure for counterfactual events); proved: a refusal is raised by line 8's conflict test of the "
+    "top-level call and by nothing else (idstar_refusal_iff_conflict), never on a single-world event",
     "termination: the model recurses on a fuel (2|V| + |event| + 4); that the fuel is never exhausted is now a THEOREM "
     "(Props/C07.lean idstar_terminates / idstar_never_out_of_fuel / idstar_outcomes) for well-formed graphs without self-loop "
     "edges and well-formed events (GoodEv: keys are variables of the graph with consistent subscript sets), every iteration "
@@ -365,7 +381,10 @@ def _evaluate(case, n_models=8, with_unpatched=True):
             if fail:
                 strategy = strat_of.get(json.dumps(r))
                 break
-    frag, frag2, ow = in_fragment(case), in_fragment2(case) or in_fragment2r(case), one_world(case)
+    flags = fragment_flags(case)
+    okc = bool(case["event"]) and not case.get("malformed") and dom
+    frag, frag2s, ow = bool(okc and flags[0]), bool(okc and flags[1]), bool(okc and flags[2])
+    frag2 = bool(okc and (flags[1] or flags[3]))
     if dom and ow and not fail:
         # theorems idstar_answers_oneworld / idstar_zero_iff_line2_oneworld: on a single-world event ID* never refuses, and it
         # returns Zero exactly when line 2 fires
@@ -379,7 +398,7 @@ def _evaluate(case, n_models=8, with_unpatched=True):
                                         "(idstar_zero_iff_line2_oneworld)"), "zero-iff-line2", strat_of.get(json.dumps(r))
                 break
     return {"by_order": by_order, "unpatched": r0, "fail": fail, "kind": kind, "in_domain": dom, "strategy": strategy,
-            "in_fragment": frag, "in_fragment2": frag2, "one_world": ow, "in_fragment2_strict": in_fragment2(case)}
+            "in_fragment": frag, "in_fragment2": frag2, "one_world": ow, "in_fragment2_strict": frag2s, "flags": flags}
 
 
 # ------------------------------------------------------------------------------------------ locating a failure in the recursion
@@ -575,7 +594,7 @@ def run_python(case):
                          "multi-world-" + ("zero" if shape == "zero" else "refused" if shape == "unidentifiable" else "estimand"))}
     nontrivial = r["in_domain"] and K.n_worlds(ev) >= 1 and bool(case["g"]["di"] or case["g"]["bi"]) and past3 and \
         shape in ("P", "sum", "prod", "unidentifiable", "zero")
-    out = {"out": ["orders", by_order, fragment_flags(case)], "fail": r["fail"], "nontrivial": bool(nontrivial), "tags": tags}
+    out = {"out": ["orders", by_order, r["flags"]], "fail": r["fail"], "nontrivial": bool(nontrivial), "tags": tags}
     ck = _coarse_key(case, r) if r["fail"] else None
     if ck is not None:
         out["finding_key"] = ck
@@ -673,22 +692,28 @@ MANIFEST = {
     "text": ("Partial proof. Lean theorems about the executable model of id_star.py (Y0/Model/IdStar.lean), for every graph, "
              "event, fuel and iteration order: line 2 is sound (an event violating effectiveness has probability 0 in every "
              "functional SCM), line 3 is sound (removing tautologies preserves the probability in every functional SCM), the "
-             "line-3 recursion strictly shrinks the event and is taken at most once; error taxonomy: on an acyclic graph and "
-             "a well-formed event the only outcomes are an estimand, Zero, 'unidentifiable' or the model's fuel bound (the "
-             "RuntimeError of line 6, the null-graph error of nx.is_connected, ValueError/NetworkXError of the helpers are "
-             "unreachable); an answer reached with some fuel is not changed by more fuel; every leaf of a returned estimand is a "
-             "single-world interventional term (C06 part); Zero returned by line 5 is sound (by C18's cg_prob). TERMINATION is proved "
+             "line-3 recursion strictly shrinks the event and is taken at most once; error taxonomy and TERMINATION "
              "(idstar_terminates / idstar_outcomes: 2|V|+3 units of fuel are never exhausted; the outcomes are an estimand, Zero or "
-             "'unidentifiable', nothing else). SOUNDNESS is proved on the named fragment InFragment (all keys in one world, unstarred "
-             "values and subscripts: the queries P(y_x)): idstar_sound_fragment -- in every compatible functional SCM the returned "
-             "expression equals P(event) -- and idstar_answers_fragment (ID* never refuses there); the proof goes through the product "
-             "structure of the noise space, local mechanism events, the c-component factorisation over the districts of the "
-             "counterfactual graph and marginalisation. Outside the fragment soundness of the returned estimand and of Zero from line 6 has NO "
-             "theorem; on the current tree it is false (F10): the check decides it by correspondence with the real code plus "
-             "exact evaluation on sampled functional SCMs, locates every wrong answer in the recursion of the real code and lists the "
-             "known defect patterns (F10/M1-M5, D1-D2) as open findings; a wrong step that shows none of them is a new violation; any failure inside the fragment is a violation whatever its key."),
+             "'unidentifiable', nothing else); every leaf of a returned estimand is a single-world interventional term (C06 part). "
+             "SOUNDNESS (in every compatible functional SCM the returned expression, under the reading of the property, equals "
+             "P(event)) is proved on three nested decidable fragments: fragment 1 (one subscript set, unstarred values and subscripts: "
+             "the queries P(y_x)), fragment 2 (one subscript set, ANY polarity of values and subscripts, provided line 6 -- when it "
+             "fires -- finds no starred-valued key that is a parent of a non-self-intervened node of the counterfactual graph and no "
+             "node self-intervened on a starred subscript) and fragment 2R (events with any number of worlds that lines 2-3 reduce to "
+             "fragment 2): about 80% of the generated events. On EVERY single-world event the estimand is P(event) under the conflating "
+             "reading (an unstarred subscript denotes the value the event gives the variable): there F10 is exactly the lost polarity "
+             "of the subscripts line 6 writes; the measured boundary (tools/c07_boundary.py) coincides with the proved one. ZERO: on "
+             "single-world events Zero is returned iff line 2 fires (sound); for every event Zero comes from line 2, line 5 (both "
+             "sound) or line 2 of a recursive call on a district event (open: the findings of kind 'zero'). REFUSALS: ID* refuses "
+             "iff line 8 of the top-level call finds a conflict; recursive calls never refuse; single-world events are never refused. "
+             "Outside fragment 2R soundness of the estimand has NO theorem; on the current tree it is false (F10): the check decides "
+             "it by correspondence with the real code plus exact evaluation on sampled functional SCMs, locates every wrong answer in "
+             "the recursion of the real code and lists the known defect patterns (F10/M1-M5, D1-D2) as open findings; a wrong step "
+             "that shows none of them is a new violation; any failure inside a fragment is a violation whatever its key."),
     "note": ("Trusted: Lean kernel + standard axioms; the hand-written models tied to the code by differential testing under "
-             "all set-iteration orders; the reading convention of estimands stated in ASSUMPTIONS; sampled models (8 per "
-             "case). One small defect was fixed (line 9 marginalisation, 4295b26); the F10 family stays open: 16 finding keys (failure kind x step of the blamed recursive call x known defect pattern), each with a minimal example."),
-    "technique": "Lean 4 theorems (termination; soundness on the single-world unstarred fragment over all functional SCMs; lines 2-3-5; error taxonomy; vocabulary invariant) + differential correspondence + exact-rational functional-SCM oracle + located known findings",
+             "all set-iteration orders (the fragment membership tests are part of the compared output); the reading convention of "
+             "estimands stated in ASSUMPTIONS; sampled models (8 per case). One small defect was fixed (line 9 marginalisation, "
+             "4295b26); the F10 family stays open: 10 finding keys for C07 (failure kind x step of the blamed recursive call x known "
+             "defect pattern), each with a minimal example."),
+    "technique": "Lean 4 theorems (termination; soundness on single-world events of any polarity and on what lines 2-3 reduce to them, over all functional SCMs; Zero and refusal characterisations; lines 2-3-5; error taxonomy; vocabulary invariant) + differential correspondence + exact-rational functional-SCM oracle + located known findings",
 }
